@@ -52,15 +52,17 @@ fn designs(seed: u64, count: usize) -> Vec<Design> {
         };
         let n = mspec.n();
         let c: Vec<f64> = (0..mspec.m()).map(|_| rng.range(1.0, 4.0)).collect();
-        let mode = (i / 3) % 3; // 0 homoscedastic unweighted, 1 heteroscedastic w=1/sigma, 2 heteroscedastic w=c/sigma
-        let base = 1e-4 * c.iter().cloned().fold(0.0, f64::max);
+        let mode = (i + i / 3) % 3; // 0 homoscedastic unweighted, 1 heteroscedastic w=1/sigma, 2 heteroscedastic w=c/sigma
+        // every fourth design has very small noise (1e-9 of the signal): calibration must not depend on the noise level
+        let rel_noise = if i % 4 == 3 { 1e-9 } else { 1e-4 };
+        let base = rel_noise * c.iter().cloned().fold(0.0, f64::max);
         let sigma: Vec<f64> = if mode == 0 { vec![base; n] } else { (0..n).map(|_| base * rng.logrange(0.3, 3.0)).collect() };
         let wscale = match mode {
             0 => None,
             1 => Some(1.0),
             _ => Some(rng.logrange(0.2, 5.0)),
         };
-        out.push(Design { name: format!("{} N={} {}", ["F1 two decays + offset", "F2 Gaussian + decay + offset", "F3 decay + offset"][fam], n, ["homoscedastic unweighted", "w=1/sigma", "w=c/sigma"][mode]), mspec, alpha, c, sigma, wscale });
+        out.push(Design { name: format!("{} N={} {}", ["F1 two decays + offset", "F2 Gaussian + decay + offset", "F3 decay + offset"][fam], n, ["homoscedastic unweighted", "w=1/sigma", "w=c/sigma"][mode]) + if i % 4 == 3 { " (noise 1e-9)" } else { "" }, mspec, alpha, c, sigma, wscale });
     }
     out
 }
@@ -130,11 +132,11 @@ fn realisation(d: &Design, rng: &mut Rng, t: &mut Tally) {
 }
 
 pub fn run(ctx: &Ctx) {
-    ctx.rule("designs: F1 two decays + offset, F2 Gaussian peak + decay + offset, F3 decay + offset on N in {10,14,30} points; noise Gaussian with sigma_i = 1e-4 of the largest coefficient (homoscedastic, unweighted) or spread over a decade (weights 1/sigma_i, or c/sigma_i with c in [0.2,5]); per design K independent realisations (quick 4000, thorough 100000), each fitted with fit_with_statistics from a start 1% off; tallies: true curve inside the band per sample, true c_j and alpha_k inside the Student-t interval built from the reported variance (oracle's own quantile), p in {0.5, 0.683, 0.9, 0.99}; mean reduced chi2 (1 for w=1/sigma, c^2 for w=c/sigma). Verdict per tally: |frequency - p| <= 6·sqrt(p(1-p)/K) + 0.004. evaluations = fits; distinct = (design, realisation block)");
+    ctx.rule("designs: F1 two decays + offset, F2 Gaussian peak + decay + offset, F3 decay + offset on N in {10,14,30} points; noise Gaussian with sigma_i = 1e-4 (every fourth design: 1e-9) of the largest coefficient (homoscedastic, unweighted) or spread over a decade (weights 1/sigma_i, or c/sigma_i with c in [0.2,5]); per design K independent realisations (quick 6000 on 8 designs, thorough 100000 on 12), each fitted with fit_with_statistics from a start 1% off; tallies: true curve inside the band per sample, true c_j and alpha_k inside the Student-t interval built from the reported variance (oracle's own quantile), p in {0.5, 0.683, 0.9, 0.99}; mean reduced chi2 (1 for w=1/sigma, c^2 for w=c/sigma). Verdict per tally: |frequency - p| <= 6·sqrt(p(1-p)/K) + 0.004. evaluations = fits; distinct = (design, realisation block)");
     ctx.assume("6-sigma binomial bounds over <= 1e3 tests per run give a false-alarm rate < 1e-5 per run; the 0.004 slack absorbs the O(noise) non-linearity bias and the library's quantile approximation; a pass says 'not distinguishable from calibrated at resolution ~0.01'");
     let t = ctx.tier;
-    let nd = t.pick(4, 12);
-    let k_per = t.pick(4000u64, 100000u64);
+    let nd = t.pick(8, 12);
+    let k_per = t.pick(6000u64, 100000u64);
     let ds = designs(ctx.seed, nd);
     let block = 500u64;
     let blocks = k_per / block;
